@@ -40,6 +40,7 @@ type VC struct {
 	counters map[string]int
 	extraAxioms []string
 	macroNames  map[string]string
+	boxComps    map[string][]string
 	prefixApps  map[string][]prefixApp
 	decls []string
 	axioms []string
@@ -53,6 +54,11 @@ type VC struct {
 	distinctFacts map[string]bool
 	fdefs    map[string]fdef
 	ringDone map[string]bool
+	rules    []ringRule
+	normTerms []normTerm
+	rulesSwept, termsSwept int
+	sweeping bool
+	ruleSeen map[string]bool
 	ringNF   map[string]string
 	isFresh  map[string]bool
 }
@@ -348,6 +354,7 @@ func (vc *VC) oblig(kind, label, reach, goal string, pos token.Position, props [
 	goal = vc.skolemize(goal)
 	if vc.sorts[SF] {
 		vc.ringLemmas(goal)
+		vc.sweepRules()
 	}
 	o := &Obl{Name: name, Kind: kind, Goal: goal, Reach: reach, Pos: pos, LineIdx: len(vc.lines), Props: props, Text: text, Func: vc.funcName}
 	vc.obls = append(vc.obls, o)
@@ -487,6 +494,8 @@ const fieldTheory = `(declare-const f0 F)
 (assert (forall ((x F)) (! (= (fneg (fneg x)) x) :pattern ((fneg (fneg x))))))
 (assert (forall ((x F)) (! (= (fmul (fneg f1) x) (fneg x)) :pattern ((fmul (fneg f1) x)))))
 (assert (forall ((x F)) (! (= (fmul x (fneg f1)) (fneg x)) :pattern ((fmul x (fneg f1))))))
+(assert (forall ((x F) (y F)) (! (= (fmul x (fneg y)) (fneg (fmul x y))) :pattern ((fmul x (fneg y))))))
+(assert (forall ((x F) (y F)) (! (= (fmul (fneg x) y) (fneg (fmul x y))) :pattern ((fmul (fneg x) y)))))
 (assert (forall ((x F) (y F)) (! (= (= (fadd x (fneg y)) f0) (= x y)) :pattern ((fadd x (fneg y))))))
 (assert (= (fneg f0) f0))
 (assert (= (ofInt 0) f0))
